@@ -17,16 +17,16 @@ import (
 	"cosmossdk.io/math"
 	abci "github.com/cometbft/cometbft/abci/types"
 	cmted25519 "github.com/cometbft/cometbft/crypto/ed25519"
+	cmtproto "github.com/cometbft/cometbft/proto/tendermint/types"
 	cmttypes "github.com/cometbft/cometbft/types"
 	codectypes "github.com/cosmos/cosmos-sdk/codec/types"
 	cryptocodec "github.com/cosmos/cosmos-sdk/crypto/codec"
 	"github.com/cosmos/cosmos-sdk/crypto/keys/secp256k1"
+	sdk "github.com/cosmos/cosmos-sdk/types"
 	authtypes "github.com/cosmos/cosmos-sdk/x/auth/types"
+	banktestutil "github.com/cosmos/cosmos-sdk/x/bank/testutil"
 	banktypes "github.com/cosmos/cosmos-sdk/x/bank/types"
 	stakingtypes "github.com/cosmos/cosmos-sdk/x/staking/types"
-	cmtproto "github.com/cometbft/cometbft/proto/tendermint/types"
-	sdk "github.com/cosmos/cosmos-sdk/types"
-	banktestutil "github.com/cosmos/cosmos-sdk/x/bank/testutil"
 
 	"github.com/dymensionxyz/dymension/v3/app"
 	"github.com/dymensionxyz/dymension/v3/app/apptesting"
@@ -42,6 +42,9 @@ type Fix struct {
 	Height int64
 	Time   time.Time
 }
+
+// lastFix is the most recently created fixture (used by the generic C18 hook in Run.Trace).
+var lastFix *Fix
 
 var BaseTime = time.Date(2024, 1, 1, 0, 0, 0, 0, time.UTC)
 
@@ -112,6 +115,7 @@ func NewFix(t *testing.T) *Fix {
 	}
 	f := &Fix{T: t, App: a, Height: 1, Time: BaseTime}
 	f.setCtx()
+	lastFix = f
 	return f
 }
 
@@ -303,6 +307,13 @@ func (f *Fix) StoreDigest(storeNames ...string) string {
 // It returns the new fixture (same height and time), the two exports (original and re-export of
 // the imported chain) and the error/panic of the import, if any.
 func (f *Fix) ImportedCopy() (f2 *Fix, exp1, exp2 map[string]json.RawMessage, err error) {
+	return f.ImportedCopyOpt(false)
+}
+
+// ImportedCopyOpt with withProposer puts a bonded validator of the exporting chain into the header
+// of the InitChainer context (InitChain itself has none).  Only used to continue a comparison after
+// the faithful import was rejected for exactly that reason.
+func (f *Fix) ImportedCopyOpt(withProposer bool) (f2 *Fix, exp1, exp2 map[string]json.RawMessage, err error) {
 	defer func() {
 		if e := recover(); e != nil {
 			err = &PanicError{Val: e, Stack: string(debug.Stack())}
@@ -316,6 +327,14 @@ func (f *Fix) ImportedCopy() (f2 *Fix, exp1, exp2 map[string]json.RawMessage, er
 	a2, _ := apptesting.SetupTestingApp()
 	f2 = &Fix{T: f.T, App: a2, Height: f.Height, Time: f.Time}
 	f2.setCtx()
+	if withProposer {
+		if vals, verr := f.App.StakingKeeper.GetAllValidators(f.Ctx); verr == nil && len(vals) > 0 {
+			ca, _ := vals[0].GetConsAddr()
+			h := f2.Ctx.BlockHeader()
+			h.ProposerAddress = ca
+			f2.Ctx = f2.Ctx.WithBlockHeader(h)
+		}
+	}
 	if _, err = a2.InitChainer(f2.Ctx, &abci.RequestInitChain{ChainId: apptesting.TestChainID, AppStateBytes: bz, Time: f.Time, InitialHeight: f.Height}); err != nil {
 		return f2, exp1, nil, err
 	}
